@@ -454,12 +454,20 @@ Proof.
     + intros [H|[r ->]]; [discriminate|]. exists r. rewrite <- app_assoc. reflexivity.
 Qed.
 
+Lemma walk_ok_src b fs folder : walk_ok b = true -> walk_src b fs folder = the_dict b fs.
+Proof.
+  unfold walk_ok, walk_over_dict, walk_src. intros H. apply andb_true_iff in H as [_ H].
+  destruct (b_wsrc b); [reflexivity|discriminate].
+Qed.
+Lemma walk_ok_folder b : walk_ok b = true -> folder_ops_ok (b_wfolder b) = true.
+Proof. unfold walk_ok. intros H. repeat (apply andb_true_iff in H as [H ?]). assumption. Qed.
+
 Lemma walk_subj b fs k e :
   walk_ok b = true -> clean_fs fs = true -> In (k, e) (the_dict b fs) ->
   k = nkey (fst e) /\ subj_of b (k, e) = nkey (fst e) /\ In e fs.
 Proof.
   unfold walk_ok, walk_subject_normalised. intros H Hc Hin.
-  apply andb_true_iff in H as [H Hsu]. apply andb_true_iff in H as [Hst Hfo].
+  apply andb_true_iff in H as [H _]. apply andb_true_iff in H as [H Hsu]. apply andb_true_iff in H as [Hst Hfo].
   destruct (mk_dict_inv _ _ _ _ Hin) as [Hk He].
   rewrite (store_ops_clean _ _ Hst (clean_fs_In _ _ Hc He)) in Hk. subst k.
   split; [reflexivity|]. split; [|exact He].
@@ -471,9 +479,8 @@ Theorem walk_exact b fs folder e :
   walk_ok b = true -> clean_fs fs = true ->
   (In e (walk b fs folder) <-> In e (entries b fs) /\ path_prefix (folder_key b folder) (nkey (fst e))).
 Proof.
-  intros Hw Hc. unfold walk, entries. rewrite !in_map_iff.
-  assert (Hfo : folder_ops_ok (b_wfolder b) = true).
-  { unfold walk_ok in Hw. repeat (apply andb_true_iff in Hw as [Hw ?]). assumption. }
+  intros Hw Hc. unfold walk, entries. rewrite (walk_ok_src b fs folder Hw), !in_map_iff.
+  pose proof (walk_ok_folder b Hw) as Hfo.
   split.
   - intros [[k e'] [He Hin]]. cbn [snd] in He. subst e'. apply filter_In in Hin as [Hin Hp].
     destruct (walk_subj b fs k e Hw Hc Hin) as [_ [Hs _]].
@@ -517,9 +524,8 @@ Qed.
 (** The empty folder means all files. *)
 Theorem walk_empty_all b fs : walk_ok b = true -> walk b fs [] = entries b fs.
 Proof.
-  intros Hw. unfold walk, entries. f_equal. apply filter_all. intros kv _.
-  assert (Hfo : folder_ops_ok (b_wfolder b) = true).
-  { unfold walk_ok in Hw. repeat (apply andb_true_iff in Hw as [Hw ?]). assumption. }
+  intros Hw. unfold walk, entries. rewrite (walk_ok_src b fs [] Hw). f_equal. apply filter_all. intros kv _.
+  pose proof (walk_ok_folder b Hw) as Hfo.
   rewrite (folder_ops_sem b [] Hfo), folder_key_empty. reflexivity.
 Qed.
 
@@ -528,7 +534,7 @@ Theorem walk_lookup_closed b fs folder e :
   walk_ok b = true -> key_ops_ok (b_get b) = true -> clean_fs fs = true ->
   In e (walk b fs folder) -> lookup b fs (fst e) = Some e.
 Proof.
-  intros Hw Hg Hc Hin. unfold walk in Hin. apply in_map_iff in Hin as [[k e'] [He Hin]]. cbn [snd] in He. subst e'.
+  intros Hw Hg Hc Hin. unfold walk in Hin. rewrite (walk_ok_src b fs folder Hw) in Hin. apply in_map_iff in Hin as [[k e'] [He Hin]]. cbn [snd] in He. subst e'.
   apply filter_In in Hin as [Hin _].
   destruct (walk_subj b fs k e Hw Hc Hin) as [Hk [_ He]]. subst k.
   unfold lookup. rewrite (key_ops_stable _ _ Hg (clean_name_normpath _ (clean_fs_In _ _ Hc He))).
@@ -539,7 +545,7 @@ Qed.
 Theorem walk_nodup b fs folder :
   walk_ok b = true -> clean_fs fs = true -> NoDup (map (fun e => nkey (fst e)) (walk b fs folder)).
 Proof.
-  intros Hw Hc. unfold walk. rewrite map_map.
+  intros Hw Hc. unfold walk. rewrite (walk_ok_src b fs folder Hw), map_map.
   assert (H : forall d, (forall kv, In kv d -> In kv (the_dict b fs)) -> NoDup (map fst d) ->
               NoDup (map (fun kv : str * file => nkey (fst (snd kv))) d)).
   { intros d Hsub Hnd. rewrite (map_ext_in _ fst); [exact Hnd|].
